@@ -24,7 +24,8 @@ pub enum S {
     /// temporary that receives the result of the combinator.
     /// `tys` = the Gallina types of `vars` (the combinators get `(St := ..)` so that the body is
     /// elaborated at a known state type).
-    Loop { id: usize, kind: LoopKind, vars: Vec<String>, tys: Vec<String>, body: Vec<S>, res: String },
+    /// `diverges`: a `loop {}` that contains no `break` of its own: it is only left by `return`.
+    Loop { id: usize, kind: LoopKind, vars: Vec<String>, tys: Vec<String>, body: Vec<S>, res: String, diverges: bool },
     /// leave the body of loop `target`: `break` (Break) or end of iteration (Next is only implicit)
     Exit { target: usize },
 }
@@ -77,10 +78,23 @@ fn escapes_from(ss: &[S], ids: &mut Vec<usize>) -> bool {
     })
 }
 
+/// does the statement list contain a `break` of loop `id`
+pub fn breaks(ss: &[S], id: usize) -> bool {
+    ss.iter().any(|s| match s {
+        S::Exit { target } => *target == id,
+        S::If { a, b, .. } => breaks(a, id) || breaks(b, id),
+        S::MatchOpt { none, .. } => breaks(none, id),
+        S::Loop { body, .. } => breaks(body, id),
+        S::While { cpre, body, .. } => breaks(cpre, id) || breaks(body, id),
+        _ => false,
+    })
+}
+
 pub fn diverges(ss: &[S]) -> bool {
     match ss.last() {
         Some(S::Ret(_)) => true,
         Some(S::Exit { .. }) => true,
+        Some(S::Loop { diverges: true, .. }) => true,
         Some(S::If { a, b, .. }) => diverges(a) && diverges(b),
         _ => false,
     }
@@ -295,7 +309,7 @@ impl Emitter {
                     init = paren(&tuple_val(vars)),
                 )
             }
-            S::Loop { id, kind, vars, tys, body, res } => {
+            S::Loop { id, kind, vars, tys, body, res, diverges } => {
                 let p = pad(ind);
                 let state = tuple_val(vars);
                 let fp = fun_pat(vars);
@@ -333,7 +347,16 @@ impl Emitter {
                     LoopKind::ForMut { .. } => unreachable!(),
                 };
                 let call = format!("{p}{res} <- {head}\n{vb})\n{p}    {state} ;;\n");
-                if esc {
+                if *diverges {
+                    // the loop has no `break`: it cannot end with `inl` (any term would do there)
+                    if !rest.is_empty() {
+                        self.errors.push("unreachable statements after a `loop` without `break`".into());
+                    }
+                    if !esc {
+                        self.errors.push("a `loop` without `break` and without `return`".into());
+                    }
+                    format!("{call}{p}match {res} with\n{p}| inr r => Ok r\n{p}| inl _ => Panic PkFuel (* unreachable: the loop has no `break` *)\n{p}end")
+                } else if esc {
                     let r = self.emit(rest, ft, ind + 4);
                     format!("{call}{p}match {res} with\n{p}| inr r => Ok r\n{p}| inl {after} =>\n{r}\n{p}end")
                 } else {
